@@ -1,6 +1,7 @@
 import MmtkModel.Model.Map32
+import MmtkModel.Model.Mono32
 import Driver.Util
-/-! C29 / C31 `dpr` component: prints exactly what `harness/src/comp/layout/dpr.rs` prints. -/
+/-! C29 / C31 / C28 `dpr` component: prints exactly what `harness/src/comp/layout/dpr.rs` prints. -/
 namespace Driver.Layout.Dpr
 open Mmtk.Map32 Driver
 
@@ -9,9 +10,21 @@ def last : Nat := 131
 def maxChunks : Nat := 2 ^ 25
 def logChunk : Nat := 22
 
+/-- One stand-alone discontiguous `MonotonePageResource` (C28): its state, its descriptor, and the
+grants it answered since its last reset (start page, pages). Resource number `k` uses head slot
+`monoBase + k` of the shared `PR`. -/
+structure MonoD where
+  m : Mono := {}
+  d : Nat := 0
+  grants : List (Nat × Nat) := []
+
+def monoBase : Nat := 8
+def maxMono : Nat := 4
+
 structure DSt where
   p : Option PR := none
   spaces : Nat := 0
+  monos : List MonoD := []
   /-- a panic while a mutex is held poisons it; the state dump takes every page resource's lock -/
   dead : Bool := false
 
@@ -21,7 +34,17 @@ def walk (s : St) : Nat → Nat → List String
     if c == 0 then [] else
     s!"{c}:{regionChunks s c}:{s.prev c}" :: walk s fuel (nextRegion s c)
 
-def showState (sparse : Bool) (n : Nat) (p : PR) : String :=
+def showMono (p : PR) (k : Nat) (x : MonoD) : String :=
+  let head := p.heads (monoBase + k)
+  let l := walk p.st 64 head
+  let gs := x.grants.map fun (s, n) => s!"{s / pagesInChunk}+{(s % pagesInChunk) * 4096}*{n}"
+  s!"{x.m.cursor * 4096},{x.m.sentinel * 4096},{x.m.cc},{x.m.acct.reserved},{x.m.acct.committed},{head},{if l.isEmpty then "-" else joinWith "/" l},{if gs.isEmpty then "-" else joinWith "/" gs}"
+
+def showMonos (p : PR) (ms : List MonoD) : String :=
+  if ms.isEmpty then "" else
+  " mono=" ++ joinWith ";" ((List.range ms.length).zip ms |>.map fun (k, x) => showMono p k x)
+
+def showState (sparse : Bool) (n : Nat) (p : PR) (ms : List MonoD := []) : String :=
   let s := p.st
   let chunks := List.range' (first - 1) (last + 3 - first)
   let heads := joinWith "," ((List.range n).map fun sp => toString (p.heads sp))
@@ -29,7 +52,7 @@ def showState (sparse : Bool) (n : Nat) (p : PR) : String :=
     let l := walk s 64 (p.heads sp); if l.isEmpty then "-" else joinWith "/" l)
   let sft := if sparse then joinWith "," (chunks.map fun c =>
       let v := sftGet s maxChunks c; if v == 0 then "-" else toString v) else "n/a"
-  s!"avail={s.avail} heads={heads} lists={lists} desc={joinWith "," (chunks.map fun c => toString (s.desc c))} sft={sft}"
+  s!"avail={s.avail} heads={heads} lists={lists} desc={joinWith "," (chunks.map fun c => toString (s.desc c))} sft={sft}{showMonos p ms}"
 
 def showR (r : R) : String :=
   match r with | .val n => toString n | .panicAssert => "panic:assert" | .panicOther => "panic:other"
@@ -66,13 +89,13 @@ def step (sparse debug : Bool) (d : DSt) (args : List String) : DSt × String :=
       if sparse then
         let (p', r, ok) := p.growSpace debug sp dd k
         match r with
-        | .val c => if ok then ({ d with p := some p' }, s!"{c} {showState sparse d.spaces p'}")
+        | .val c => if ok then ({ d with p := some p' }, s!"{c} {showState sparse d.spaces p' d.monos}")
                     else ({ d with p := some p', dead := true }, "panic:other")
         | _ => ({ d with p := some p', dead := true }, showR r)
       else
         let (p', r) := p.grow debug sp dd k
         match r with
-        | .val c => ({ d with p := some p' }, s!"{c} {showState sparse d.spaces p'}")
+        | .val c => ({ d with p := some p' }, s!"{c} {showState sparse d.spaces p' d.monos}")
         | _ => ({ d with p := some p', dead := true }, showR r)
     | _, _, _ => (d, "bad-op")
   | ["release", sp, c] =>
@@ -81,7 +104,7 @@ def step (sparse debug : Bool) (d : DSt) (args : List String) : DSt × String :=
       if !okSp sp then (d, "bad-op") else
       if d.dead then (d, "panic:other") else
       match p.release debug sp c with
-      | some p' => ({ d with p := some p' }, s!"ok {showState sparse d.spaces p'}")
+      | some p' => ({ d with p := some p' }, s!"ok {showState sparse d.spaces p' d.monos}")
       | none => ({ d with dead := true }, "panic:assert")
     | _, _ => (d, "bad-op")
   | ["releaseall", sp] =>
@@ -90,10 +113,49 @@ def step (sparse debug : Bool) (d : DSt) (args : List String) : DSt × String :=
       if !okSp sp then (d, "bad-op") else
       if d.dead then (d, "panic:other") else
       match p.releaseAll debug sp with
-      | some p' => ({ d with p := some p' }, s!"ok {showState sparse d.spaces p'}")
+      | some p' => ({ d with p := some p' }, s!"ok {showState sparse d.spaces p' d.monos}")
       | none => ({ d with dead := true }, "panic:assert")
     | none => (d, "bad-op")
-  | ["state"] => if d.dead then (d, "panic:other") else (d, showState sparse d.spaces p)
+  | ["state"] => if d.dead then (d, "panic:other") else (d, showState sparse d.spaces p d.monos)
+  | ["mnew", dd] =>
+    match num? dd with
+    | some dd =>
+      if d.monos.length ≥ maxMono then (d, "bad-op") else
+      let ms := d.monos ++ [{ d := dd }]
+      if d.dead then ({ d with monos := ms }, "panic:other") else
+      ({ d with monos := ms }, s!"ok {showState sparse d.spaces p ms}")
+    | none => (d, "bad-op")
+  | ["malloc", k, pages] =>
+    match num? k, num? pages with
+    | some k, some pages =>
+      if k ≥ d.monos.length || pages ≥ 2 ^ 32 then (d, "bad-op") else
+      if d.dead then (d, "panic:other") else
+      let x := d.monos.getD k {}
+      match x.m.acquire debug p (monoBase + k) x.d pages with
+      | (p', m', .ok start n nc) =>
+        let ms := d.monos.set k { x with m := m', grants := x.grants ++ [(start, n)] }
+        ({ d with p := some p', monos := ms },
+         s!"ok {start / pagesInChunk}+{(start % pagesInChunk) * 4096} {n} new_chunk={if nc then 1 else 0} {showState sparse d.spaces p' ms}")
+      | (p', m', .fail) =>
+        let ms := d.monos.set k { x with m := m' }
+        ({ d with p := some p', monos := ms }, s!"fail {showState sparse d.spaces p' ms}")
+      | (p', _, .panicAssert) => ({ d with p := some p', dead := true }, "panic:assert")
+      | (p', _, .panicOther) => ({ d with p := some p', dead := true }, "panic:other")
+      | (p', _, .panicOverflow) => ({ d with p := some p', dead := true }, "panic:overflow")
+      | (p', _, .deadlock) => ({ d with p := some p', dead := true }, "deadlock")
+    | _, _ => (d, "bad-op")
+  | ["mreset", k] =>
+    match num? k with
+    | some k =>
+      if k ≥ d.monos.length then (d, "bad-op") else
+      if d.dead then (d, "panic:other") else
+      let x := d.monos.getD k {}
+      match x.m.reset debug p (monoBase + k) with
+      | some (p', m') =>
+        let ms := d.monos.set k { x with m := m', grants := [] }
+        ({ d with p := some p', monos := ms }, s!"ok {showState sparse d.spaces p' ms}")
+      | none => ({ d with dead := true }, "panic:assert")
+    | none => (d, "bad-op")
   | _ => (d, "bad-op")
 
 end Driver.Layout.Dpr
